@@ -71,4 +71,44 @@ def fast_node(rng):
                 sup="sup")
 
 
-FAMILIES = {"fast_node": fast_node, "same_generation_pair": same_generation_pair, "slow_side_node": slow_side_node, "slow_producer": slow_producer, "long_sink": long_sink}
+def advance_mixed(rng):
+    """A node with advance=True that has a blocking AND a non-blocking input, whose blocking messages usually arrive before its scheduled
+    time (sampled communication delay below the expected one): it must still wait for its schedule (only a node with blocking inputs ONLY
+    may start early).  Seeded change C04-a computed `only blocking` over the already filtered blocking inputs."""
+    p = rng.choice([4, 8])
+    return dict(nodes=[_n("s", 0, p, 0, [0, 1]), _n("t", 1, p, 1, [1]), _n("c", 2, p, 1, [1, 2], advance=True, sched=rng.choice(["F", "P"]))],
+                conns=[_c("s", "c", blocking=True, window=rng.choice([1, 2]), delay=3, cdist=[0, 1, 3]),
+                       _c("t", "c", name="in_t", window=1, delay=0, cdist=[0, 1]),
+                       _c("c", "s", name="in_c", skip=True, window=1, delay=0, cdist=[0, 1])],
+                sup="c")
+
+
+def blocking_tie(rng):
+    """Blocking, un-skipped connection whose expected delays add up to exactly k receiver periods: a nominal producer time stamp coincides
+    with `receiver.phase - period`, the boundary of the first step's window in the phase rule of blocking connections (<= for un-skipped,
+    < for skipped connections).  Seeded change C03-c merged the two comparisons."""
+    P = rng.choice([4, 8])
+    k = 1   # k >= 2 would leave the supported class (rule iv: expected delays of a blocking connection on a cycle below the receiver's period)
+    a = rng.choice([1, 2, 3])
+    b = k * P - a
+    ps = rng.choice([P, P // 2])
+    skip_fb = True
+    return dict(nodes=[_n("s", 0, ps, a, sorted({max(a - 1, 0), a})), _n("r", 1, P, 1, [0, 1])],
+                conns=[_c("s", "r", blocking=True, window=rng.choice([1, 2, 3]), delay=b, cdist=sorted({max(b - 1, 0), b})),
+                       _c("r", "s", name="in_r", skip=skip_fb, window=1, delay=0, cdist=[0, 1])],
+                sup="r")
+
+
+def rare_overrun(rng):
+    """A node at the supervisor's rate whose computation delay rarely exceeds its period: in some episodes of an experiment it runs in
+    every partition, in others one of its ticks falls out of a partition (masked slot).  Run masks that differ BETWEEN the episodes of one
+    compiled graph (seeded change C06-c derived a per-kind 'always runs' shortcut from the fullest episode)."""
+    P = rng.choice([4, 8])
+    # even episodes: `a` never overruns (runs in every partition); odd episodes: it overruns now and then (cdist_alt, see arun.run_history)
+    return dict(nodes=[_n("a", 0, P, 1, [1], cdist_alt=[1, 2 * P + 2]), _n("s", 1, P, 1, [1]), _n("w", 2, P, 0, [0, 1])],
+                conns=[_c("a", "s", window=2, delay=1, cdist=[0, 1]), _c("s", "w", window=1, delay=0, cdist=[0, 1]),
+                       _c("w", "a", name="in_w", skip=True, window=1, delay=0, cdist=[0, 1])],
+                sup="s")
+
+
+FAMILIES = {"rare_overrun": rare_overrun, "blocking_tie": blocking_tie, "advance_mixed": advance_mixed, "fast_node": fast_node, "same_generation_pair": same_generation_pair, "slow_side_node": slow_side_node, "slow_producer": slow_producer, "long_sink": long_sink}
